@@ -99,6 +99,62 @@ CLAIMS = {
         "note": "composition (list only grows, one push site per condition) argued in DESIGN.md",
         "technique": "bounded model checking of the real code (Kani/CBMC): per-push-site lemmas + exhaustive symbolic subsets for the verdict",
     },
+    "C01": {
+        "text": "Claimed compositionally: every stepping call of the sans-IO API is shown, by the step harnesses of C02/C03/C04/C07/C08, "
+                "to be a function of (state, offered window, output capacity) that consumes / produces a prefix and re-establishes "
+                "the representation invariant, and the read-only queries are shown not to change writer, reader or flags. "
+                "Independence of whole exchanges from the slicing follows by induction over calls (paper argument in DESIGN.md §3 C01); "
+                "no whole-exchange formula is solved.",
+        "design_ref": "DESIGN.md §3 C01",
+        "note": "conjunction of bounded step lemmas + a written composition argument; response-head segmentation rests on httparse (trusted)",
+        "technique": "bounded model checking of the real code (Kani/CBMC): step-determinism / purity lemmas, composition on paper",
+    },
+    "C02": {
+        "text": "The real line-atomic head writer (Call::write -> try_write_prelude, with core::fmt) is decided for a concrete 27-byte head "
+                "(request line + one header) from each resumption point and for EVERY output buffer size 0..=32: whole lines only, as many "
+                "as fit, byte-exact, OutputOverflow without side effect exactly when the next line does not fit, nothing after completion; "
+                "Host / framing-header insertion flags are decided by the analyze harnesses (C17 family) and the despite-method harness.",
+        "design_ref": "DESIGN.md §3 C02",
+        "note": "one header line; header-sequence level (caller-added first, suppression) only on minimal scenarios (C13/C16 harnesses)",
+        "technique": "bounded model checking of the real code (Kani/CBMC): symbolic buffer size over a concrete small head",
+    },
+    "C11": {
+        "text": "Flow::<Await100>::try_read_100 and hoot's parser glue are decided for every outcome class of httparse that does not build "
+                "a Response (incomplete input at three depths, response with fields, malformed input, unsupported version): nothing consumed, "
+                "flags and Not100Continue exactly as stated; both edges out of Await100 with successor usability; the Expect flag at construction. "
+                "The two outcomes that build a Response (bare 100, other bare status) exceed the budget (http::response::Builder + drop glue) "
+                "and are not decided.",
+        "design_ref": "DESIGN.md §3 C11",
+        "note": "httparse replaced by a deterministic script environment under a stated contract (trusted); late-100 skipping not decided",
+        "technique": "bounded model checking of the real code (Kani/CBMC) with an environment stub enumerating httparse's outcome classes",
+    },
+    "C12": {
+        "text": "Safety clauses on ARBITRARY bytes: every dechunker handler, the length-/close-delimited readers and the chunk writer are "
+                "shown to return normally with consumed <= offered, produced <= space, produced bytes copies of consumed bytes in order, "
+                "no panic / overflow / out-of-bounds; the close-reason list holds all five conditions; try_read_100 never panics on any "
+                "httparse outcome class.",
+        "design_ref": "DESIGN.md §3 C12",
+        "note": "windows <= 6 (8) bytes for the dechunker, <= 16 for the plain readers; httparse / http themselves trusted; response-head "
+                "glue only for outcomes that do not build a Response",
+        "technique": "bounded model checking of the real code (Kani/CBMC): unconstrained symbolic byte windows, built-in panic/overflow/bounds checks",
+    },
+    "C13": {
+        "text": "The inherited-header suppression of a redirected request is decided on minimal scenarios (one inherited header of each "
+                "kind x policy decision): Cookie and Content-Length never effective, Authorization effective iff the policy decision kept "
+                "it, unrelated headers kept; every hop is rebuilt from the original request (take_request + Flow::new), so one hop from an "
+                "arbitrary override URI covers chains.",
+        "design_ref": "DESIGN.md §3 C13",
+        "note": "effective-header count on one original header per harness (two exhaust 24 GB in http's HeaderMap iterators); the "
+                "host/scheme comparison of can_redirect_auth_header on real URIs is not decided (Uri parsing out of reach)",
+        "technique": "bounded model checking of the real code (Kani/CBMC): concrete minimal scenarios",
+    },
+    "C16": {
+        "text": "Minimal scenario of the property's 'in particular' clause, on the real set_header / unset_header / headers / headers_len: "
+                "a cookie the caller adds to a redirected request is effective although the inherited cookie is suppressed.",
+        "design_ref": "DESIGN.md §3 C16",
+        "note": "one caller-added header; ordering among several additions and with originals not decided (memory)",
+        "technique": "bounded model checking of the real code (Kani/CBMC): concrete minimal scenario",
+    },
 }
 
 PENDING = "check not built yet in this session (planned, see DESIGN.md §3); nothing is claimed"
@@ -106,6 +162,11 @@ NOT_APPLICABLE = {
     "C14": "RFC 3986 resolution is url::Url::join (url/idna/ICU tables): one concrete join does not finish symbolic execution "
            "in 10 min and Url cannot be stubbed without hiding exactly the wrapper the property is about (DESIGN.md §3 C14)",
 }
+NOT_APPLICABLE["C05"] = ("response-head glue builds an http::Response (http::response::Builder, HeaderName::from_bytes, HeaderMap insertion, "
+                         "drop glue): even with httparse replaced by a script stub one Complete outcome does not finish in 20 min / 24 GB; the "
+                         "prefix clauses that do not build a Response are decided under C11/C12 instead (DESIGN.md §3 C05)")
+NOT_APPLICABLE["C20"] = ("same code path as C05 (try_parse_response / try_parse_request build http values from httparse output): out of reach for "
+                         "CBMC within budget; not claimed (DESIGN.md §3 C20)")
 for _p in ["C01", "C02", "C03", "C05", "C06", "C07", "C08", "C09", "C10", "C11", "C12", "C13", "C15", "C16", "C17",
            "C18", "C19", "C20"]:
     if _p not in CLAIMS:
